@@ -9,10 +9,11 @@
 //! Oracle: everything the statement says, recomputed from first principles against a dense
 //! cyclic-Jacobi eigen-decomposition of the sample covariance written below.
 use crate::util::*;
-use linfa::traits::{Fit, Predict};
+use linfa::traits::{Fit, Predict, PredictInplace, Transformer};
 use linfa::DatasetBase;
 use linfa_reduction::{Pca, ReductionError};
-use ndarray::{Array1, Array2, Axis};
+use ndarray::{s, Array1, Array2, ArrayBase, ArrayView2, Axis, Data, Ix2, ShapeBuilder};
+use std::cell::Cell;
 
 type Mat = Vec<Vec<f64>>;
 
@@ -156,7 +157,9 @@ fn mat_mul(a: &Mat, b: &Mat) -> Mat {
     a.iter().map(|r| (0..m).map(|j| r.iter().zip(b).map(|(x, br)| x * br[j]).sum()).collect()).collect()
 }
 
-const KINDS: [&str; 7] = ["lattice", "isotropic", "anisotropic", "lowrank_noise", "offset", "badly_scaled", "rank_deficient"];
+const KINDS: [&str; 9] = ["lattice", "isotropic", "anisotropic", "lowrank_noise", "offset", "badly_scaled", "rank_deficient", "tied", "tiny_scale"];
+const LAYOUTS: [&str; 4] = ["C", "F", "Cs", "Fs"];
+const FORMS: [&str; 4] = ["plain", "targets", "weights", "view"];
 
 fn gen_matrix(rng: &mut Rng, kind: &str, n: usize, p: usize) -> Mat {
     match kind {
@@ -191,6 +194,36 @@ fn gen_matrix(rng: &mut Rng, kind: &str, n: usize, p: usize) -> Mat {
             let off: Vec<f64> = (0..p).map(|_| if rng.coin() { 0.0 } else { rng.range(-50, 50) as f64 }).collect();
             (0..n).map(|_| (0..p).map(|j| (gauss(rng) + off[j]) * sc[j]).collect()).collect()
         }
+        // exactly repeated eigenvalues: rows +-a_g e_j, every axis of a group equally often, so the
+        // covariance is exactly diagonal with one value per group (1 to 3 groups)
+        "tied" => {
+            let groups = 1 + rng.below(3.min(p));
+            let amp: Vec<f64> = (0..groups).map(|g| (1 << (2 * (groups - 1 - g))) as f64).collect();
+            let reps = (n / (2 * p)).max(1);
+            let mut rows: Mat = vec![];
+            for _ in 0..reps {
+                for j in 0..p {
+                    for sgn in [1.0, -1.0] {
+                        let mut r = vec![0.0; p];
+                        r[j] = sgn * amp[j * groups / p];
+                        rows.push(r);
+                    }
+                }
+            }
+            // n is only a hint for this kind (2p | rows); keep n > p
+            rng.shuffle(&mut rows);
+            rows
+        }
+        // data of scale 1e-4 .. 1e-10: singular values below the 1e-8 floor survive the solver's
+        // relative cut-off, so the floor is what `fit` reports
+        "tiny_scale" => {
+            let sc = 10f64.powf(-(4.0 + 6.0 * rng.unit()));
+            let s = 0.5 * rng.unit();
+            let axis: Vec<f64> = (0..p).map(|j| sc * 10f64.powf(-s * j as f64)).collect();
+            let q = rand_orth(rng, p);
+            let g: Mat = (0..n).map(|_| (0..p).map(|j| gauss(rng) * axis[j]).collect()).collect();
+            mat_mul(&g, &q)
+        }
         // exact linear dependence between columns (integers): outside "low-rank plus noise",
         // kept as a separate class — the SVD may return fewer than k components here
         _ => {
@@ -209,8 +242,9 @@ fn gen_matrix(rng: &mut Rng, kind: &str, n: usize, p: usize) -> Mat {
 
 fn show_err(e: &ReductionError) -> String {
     match e {
-        ReductionError::NotEnoughSamples => "err NotEnoughSamples".into(),
-        ReductionError::EmbeddingTooSmall(k) => format!("err EmbeddingTooSmall({})", k),
+        // the statement promises an error, not which one: both guard errors are one token
+        ReductionError::NotEnoughSamples => "err Guard".into(),
+        ReductionError::EmbeddingTooSmall(_) => "err Guard".into(),
         ReductionError::LinalgError(_) => "err Linalg".into(),
         other => format!("err Other({})", other),
     }
@@ -222,6 +256,34 @@ fn exact2(m: &Mat) -> String {
     list2(m.iter().map(|r| r.iter()), |x| hex64c(*x))
 }
 
+/// the record matrix in one of the four memory layouts: backing storage + the (possibly strided)
+/// view the implementation is given
+struct Laid {
+    store: Array2<f64>,
+    lay: &'static str,
+}
+impl Laid {
+    fn new(x: &Mat, p: usize, lay: &'static str) -> Laid {
+        let n = x.len();
+        let store = match lay {
+            "C" => Array2::from_shape_fn((n, p), |(i, j)| x[i][j]),
+            "F" => Array2::from_shape_fn((n, p).f(), |(i, j)| x[i][j]),
+            // every second column of a C-order n x 2p allocation (the others hold junk)
+            "Cs" => Array2::from_shape_fn((n, 2 * p), |(i, j)| if j % 2 == 0 { x[i][j / 2] } else { 1e9 + j as f64 }),
+            // every second row of an F-order 2n x p allocation
+            _ => Array2::from_shape_fn((2 * n, p).f(), |(i, j)| if i % 2 == 0 { x[i / 2][j] } else { -1e9 - i as f64 }),
+        };
+        Laid { store, lay }
+    }
+    fn view(&self) -> ArrayView2<'_, f64> {
+        match self.lay {
+            "C" | "F" => self.store.view(),
+            "Cs" => self.store.slice(s![.., ..;2]),
+            _ => self.store.slice(s![..;2, ..]),
+        }
+    }
+}
+
 struct Fitted {
     mean: Vec<f64>,
     sigma: Vec<f64>,
@@ -230,9 +292,20 @@ struct Fitted {
     evr: Vec<f64>,
     model: Pca<f64>,
 }
-fn fit_pca(x: &Mat, p: usize, k: usize, w: bool) -> Result<Fitted, ReductionError> {
-    let ds = DatasetBase::from(to_arr(x, p));
-    let model = Pca::params(k).whiten(w).fit(&ds)?;
+fn fit_any<D: Data<Elem = f64>>(rec: ArrayBase<D, Ix2>, form: &str, k: usize, w: bool) -> Result<Pca<f64>, ReductionError> {
+    let n = rec.nrows();
+    let params = Pca::params(k).whiten(w);
+    match form {
+        "targets" => params.fit(&DatasetBase::new(rec, Array1::from_shape_fn(n, |i| i % 3))),
+        "weights" => params.fit(&DatasetBase::new(rec, Array2::from_shape_fn((n, 2), |(i, j)| (i * 2 + j) as f64)).with_weights(Array1::from_shape_fn(n, |i| (1 + i % 4) as f32))),
+        _ => params.fit(&DatasetBase::from(rec)),
+    }
+}
+/// `fit` through the calling form: owned array for plain / targets / weights on a contiguous
+/// layout, a view for `form = view` and for the strided layouts
+fn fit_pca(x: &Mat, p: usize, k: usize, w: bool, lay: &'static str, form: &str) -> Result<Fitted, ReductionError> {
+    let laid = Laid::new(x, p, lay);
+    let model = if form == "view" || lay == "Cs" || lay == "Fs" { fit_any(laid.view(), form, k, w)? } else { fit_any(laid.store, form, k, w)? };
     Ok(Fitted {
         mean: model.mean().to_vec(),
         sigma: model.singular_values().to_vec(),
@@ -255,12 +328,64 @@ fn inverse(m: &Pca<f64>, z: &Mat) -> Mat {
     let k = z[0].len();
     from_arr(&m.inverse_transform(to_arr(z, k)))
 }
+fn same_bits(a: &Mat, b: &Mat) -> bool {
+    a.len() == b.len() && a.iter().zip(b).all(|(r, s)| r.len() == s.len() && r.iter().zip(s).all(|(x, y)| x.to_bits() == y.to_bits()))
+}
+
+/// every calling form of the projection on the training records in their layout: all of them are
+/// `predict_inplace` underneath and must give the same numbers; targets / weights travel as the
+/// form promises
+fn calling_forms(ctx: &mut Ctx, f: &Fitted, x: &Mat, p: usize, lay: &'static str, zref: &Mat, scale: f64) {
+    let n = x.len();
+    let laid = Laid::new(x, p, lay);
+    let class = |form: &str| format!("form={};lay={}", form, lay);
+    let tg = Array1::from_shape_fn(n, |i| (7 * i + 1) % 5);
+    let wt = Array1::from_shape_fn(n, |i| (1 + i % 3) as f32);
+    // predict(&records) on the laid-out view: the reference for the other forms
+    let zl = from_arr(&f.model.predict(&laid.view()));
+    let d = zl.iter().zip(zref).flat_map(|(a, b)| a.iter().zip(b).map(|(x, y)| (x - y).abs())).fold(0.0f64, f64::max);
+    let zmax = max_abs(zref).max(f64::MIN_POSITIVE);
+    ctx.require(zl.len() == n && d <= 1e-9 * zmax.max(scale * max_abs(&f.comp)), "calling_form", &class("predict_view"), || format!("predict(&view in layout {}) differs from predict(&C-order array) by {:e}", lay, d));
+    // Transformer::transform(dataset with targets and weights)
+    let ds = DatasetBase::new(laid.view(), tg.clone()).with_weights(wt.clone());
+    let out = f.model.transform(ds);
+    let ok = same_bits(&from_arr(out.records()), &zl) && out.targets() == &tg && out.weights().map(|w| w.to_vec()) == Some(wt.to_vec());
+    ctx.require(ok, "calling_form", &class("transform_dataset"), || format!("transform(dataset): records equal predict: {}, targets kept: {}, weights {:?} (expected {:?})", same_bits(&from_arr(out.records()), &zl), out.targets() == &tg, out.weights().map(|w| w.len()), wt.len()));
+    // transform(dataset without weights, unit targets)
+    let out = f.model.transform(DatasetBase::from(laid.view()));
+    let okp = same_bits(&from_arr(out.records()), &zl) && out.weights().map(|w| w.len()).unwrap_or(0) == 0;
+    ctx.require(okp, "calling_form", &class("transform_plain"), || format!("transform(DatasetBase::from(records)): records equal predict(&records): {}, weights {:?}", same_bits(&from_arr(out.records()), &zl), out.weights().map(|w| w.len())));
+    // predict(&dataset), predict(dataset), predict(records by value)
+    let ds = DatasetBase::new(laid.view(), tg.clone()).with_weights(wt.clone());
+    let z1: Array2<f64> = f.model.predict(&ds);
+    ctx.require(same_bits(&from_arr(&z1), &zl), "calling_form", &class("predict_ref_dataset"), || "predict(&dataset) differs from predict(&records)".into());
+    let out = f.model.predict(ds);
+    ctx.require(same_bits(&from_arr(out.targets()), &zl) && same_bits(&from_arr(&out.records().to_owned()), x), "calling_form", &class("predict_dataset"), || "predict(dataset): targets differ from predict(&records) or the records were changed".into());
+    let out = f.model.predict(laid.view());
+    ctx.require(same_bits(&from_arr(out.targets()), &zl) && same_bits(&from_arr(&out.records().to_owned()), x), "calling_form", &class("predict_records"), || "predict(records): targets differ from predict(&records) or the records were changed".into());
+    // predict_inplace overwrites a pre-filled buffer of the right shape
+    let mut buf = Array2::from_elem((n, f.comp.len()), f64::NAN);
+    f.model.predict_inplace(&laid.view(), &mut buf);
+    ctx.require(same_bits(&from_arr(&buf), &zl), "calling_form", &class("predict_inplace"), || "predict_inplace into a pre-filled buffer differs from predict(&records)".into());
+}
+
+/// what the oracle found, for the coverage counters
+#[derive(Default, Clone, Copy)]
+struct Seen {
+    fitted: bool,
+    spectral_ok: bool,
+    whitened_checked: bool,
+    floored: bool,
+}
 
 /// the statement's clauses on one training matrix, embedding size and whitening flag
-fn oracle(ctx: &mut Ctx, kind: &str, x: &Mat, p: usize, k: usize, w: bool, f: &Fitted) {
+fn oracle(ctx: &mut Ctx, kind: &str, x: &Mat, p: usize, k: usize, w: bool, lay: &'static str, f: &Fitted) -> Seen {
+    let mut seen = Seen { fitted: true, ..Default::default() };
     let n = x.len();
     let kp = regime(k, p);
+    let dense = kp != "5k<=p";
     let class = format!("data={};{};whiten={}", kind, kp, w as u8);
+    let fails0 = ctx.fails.len();
     let m = col_mean(x, p);
     let xc = centred(x, &m);
     let c = gram(&xc, p, (n - 1) as f64);
@@ -268,7 +393,7 @@ fn oracle(ctx: &mut Ctx, kind: &str, x: &Mat, p: usize, k: usize, w: bool, f: &F
     let lmax = lam[0].max(0.0);
     if !(lmax > 0.0) {
         ctx.mark_trivial();
-        return;
+        return seen;
     }
     let scale = max_abs(&xc).max(f64::MIN_POSITIVE);
     let r = f.sigma.len();
@@ -281,12 +406,12 @@ fn oracle(ctx: &mut Ctx, kind: &str, x: &Mat, p: usize, k: usize, w: bool, f: &F
     ctx.require(r <= k && r >= needed, "component_count", &class, || format!("{} components for k={}; {} of the k leading eigenvalues are above 1e-9 of the largest: {:?}", r, k, needed, lam));
     ctx.require(f.comp.len() == r && f.comp.iter().all(|v| v.len() == p), "component_count", &class, || format!("components shape {}x? vs sigma {}", f.comp.len(), r));
     if f.comp.len() != r || r == 0 {
-        return;
+        return seen;
     }
     let finite = f.sigma.iter().all(|s| s.is_finite()) && f.comp.iter().flatten().all(|v| v.is_finite()) && f.mean.iter().all(|v| v.is_finite());
     ctx.require(finite, "finite", &class, || format!("non-finite sigma/components: sigma={:?}", f.sigma));
     if !finite {
-        return;
+        return seen;
     }
     // mean
     let dm = f.mean.iter().zip(&m).fold(0.0f64, |a, (x, y)| a.max((x - y).abs()));
@@ -296,6 +421,10 @@ fn oracle(ctx: &mut Ctx, kind: &str, x: &Mat, p: usize, k: usize, w: bool, f: &F
     // directions times sqrt(n-1)/sigma_i, so divide that factor out again
     let cs = ((n - 1) as f64).sqrt();
     let dirs: Mat = if w { f.comp.iter().zip(&f.sigma).map(|(v, s)| v.iter().map(|a| a * s / cs).collect()).collect() } else { f.comp.clone() };
+    // a singular value on the 1e-8 floor is not the data's: the clauses that read sigma_i skip it
+    let floored: Vec<bool> = f.sigma.iter().map(|s| *s <= 1e-8).collect();
+    let any_floored = floored.iter().any(|b| *b);
+    seen.floored = any_floored;
 
     // (1) orthonormal
     let mut worst = 0.0f64;
@@ -314,27 +443,47 @@ fn oracle(ctx: &mut Ctx, kind: &str, x: &Mat, p: usize, k: usize, w: bool, f: &F
     let tol_l = 1e-6 * lmax;
     for i in 0..r {
         let d = (theta[i] - lam[i].max(0.0)).abs();
-        // singular values floored at 1e-8 are allowed to sit above a vanishing eigenvalue
-        let floored = f.sigma[i] <= 1e-8;
-        ctx.require(d <= tol_l || floored, "leading_eigenvalues", &class, || {
+        ctx.require(d <= tol_l || floored[i], "leading_eigenvalues", &class, || {
             format!("sigma[{}]^2/(n-1) = {:e} but eigenvalue #{} of the covariance is {:e} (largest {:e}); sigma={:?} eig={:?}", i, theta[i], i, lam[i], lmax, f.sigma, lam)
         });
     }
     // (4) eigen-certificate: C v_i = theta_i v_i
-    let mut worst_res = 0.0f64;
-    for i in 0..r {
-        let cv: Vec<f64> = c.iter().map(|row| dot(row, &dirs[i])).collect();
-        let res: f64 = cv.iter().zip(&dirs[i]).map(|(a, b)| (a - theta[i] * b).powi(2)).sum::<f64>().sqrt();
-        worst_res = worst_res.max(res);
-    }
+    let resid: Vec<f64> = (0..r)
+        .map(|i| {
+            let cv: Vec<f64> = c.iter().map(|row| dot(row, &dirs[i])).collect();
+            cv.iter().zip(&dirs[i]).map(|(a, b)| (a - theta[i] * b).powi(2)).sum::<f64>().sqrt()
+        })
+        .collect();
+    let worst_res = (0..r).filter(|i| !floored[*i]).map(|i| resid[i]).fold(0.0f64, f64::max);
     ctx.require(worst_res <= 1e-5 * lmax, "eigenvector_residual", &class, || format!("max |C v - theta v| = {:e} (largest eigenvalue {:e})", worst_res, lmax));
+    // (4') every component for itself, relative to its OWN variance: the reported variance is an
+    // eigenvalue of the covariance (|theta_i - nearest eigenvalue| small against theta_i) and the
+    // direction is an eigenvector for it (residual small against theta_i).  The absolute part
+    // 1e-12*lmax is the accuracy of an eigenvalue of X^T X formed in f64 (about p*eps*lmax); only
+    // the dense regimes are held to it (LOBPCG stops at its own tolerance, clause (4) covers it).
+    if dense {
+        for i in 0..r {
+            if floored[i] {
+                continue;
+            }
+            let near = lam.iter().map(|l| (l - theta[i]).abs()).fold(f64::INFINITY, f64::min);
+            let tol = 1e-6 * theta[i] + 1e-12 * lmax;
+            ctx.require(near <= tol && (theta[i] - lam[i].max(0.0)).abs() <= tol, "component_variance_relative", &class, || {
+                format!("component {}: sigma^2/(n-1) = {:e}, eigenvalue #{} = {:e}, nearest eigenvalue at distance {:e} (tolerance {:e}); eig={:?}", i, theta[i], i, lam[i], near, tol, lam)
+            });
+            let tol_r = 1e-5 * theta[i] + 1e-11 * lmax;
+            ctx.require(resid[i] <= tol_r, "component_residual_relative", &class, || format!("component {}: |C v - theta v| = {:e} with theta = {:e} (tolerance {:e}, largest eigenvalue {:e})", i, resid[i], theta[i], tol_r, lmax));
+        }
+    }
 
-    // (5) projected training data
+    // (5) projected training data; with whitening the coordinates are divided by the whitening
+    // factor sqrt(n-1)/sigma_i again, so the un-whitened clauses are evaluated for both settings
     let z = predict(&f.model, x, p);
-    let zm = col_mean(&z, r);
-    let zc = centred(&z, &zm);
+    let zu: Mat = if w { z.iter().map(|row| row.iter().zip(&f.sigma).map(|(a, s)| a * s / cs).collect()).collect() } else { z.clone() };
+    let zm = col_mean(&zu, r);
+    let zc = centred(&zu, &zm);
     let cz = gram(&zc, r, (n - 1) as f64);
-    if !w {
+    {
         let zscale = lmax.sqrt();
         ctx.require(zm.iter().all(|v| v.abs() <= 1e-7 * zscale.max(scale)), "projected_centred", &class, || format!("projected training data has mean {:?}", zm));
         let mut off = 0.0f64;
@@ -349,37 +498,43 @@ fn oracle(ctx: &mut Ctx, kind: &str, x: &Mat, p: usize, k: usize, w: bool, f: &F
         // sample variances of the coordinates are the reported explained variances
         ctx.require(f.ev.len() == r, "explained_variance", &class, || format!("{} explained variances for {} components", f.ev.len(), r));
         for i in 0..r.min(f.ev.len()) {
+            if floored[i] {
+                continue;
+            }
             let d = (cz[i][i] - f.ev[i]).abs();
-            ctx.require(d <= 1e-6 * lmax, "explained_variance", &format!("{};k{}", class, if r == 1 { "=1" } else { ">1" }), || {
-                format!("coordinate {} of the projected training data has sample variance {:e}, explained_variance() reports {:e} (n={}, components={})", i, cz[i][i], f.ev[i], n, r)
+            // relative to the coordinate's own variance in the dense regimes (see (4'))
+            let tol = if dense { 1e-6 * f.ev[i].abs() + 1e-12 * lmax } else { 1e-6 * lmax };
+            ctx.require(d <= tol, "explained_variance", &format!("{};k{}", class, if r == 1 { "=1" } else { ">1" }), || {
+                format!("coordinate {} of the projected training data has sample variance {:e}, explained_variance() reports {:e} (n={}, components={}, tolerance {:e})", i, cz[i][i], f.ev[i], n, r, tol)
             });
         }
-        // no k-dimensional orthogonal projection retains more: Ky Fan bound = sum of the top-r eigenvalues
+        // no k-dimensional orthogonal projection retains more: Ky Fan bound = sum of the top-k eigenvalues
         let kept: f64 = (0..r).map(|i| cz[i][i]).sum();
         let best: f64 = (0..k).map(|i| lam[i].max(0.0)).sum();
-        ctx.require(kept >= best - 1e-6 * lmax * r as f64, "max_variance", &class, || format!("retained variance {:e} < optimum {:e} (sum of the {} largest eigenvalues)", kept, best, k));
-    } else {
+        let slack = if dense { 1e-9 * lmax * k as f64 } else { 1e-6 * lmax * k as f64 };
+        ctx.require(kept >= best - slack, "max_variance", &class, || format!("retained variance {:e} < optimum {:e} (sum of the {} largest eigenvalues) by {:e}", kept, best, k, best - kept));
+    }
+    if w {
         // whitened: identity covariance; the error of a covariance eigenvalue theta_i computed
-        // through X^T X in f64 is ~ eps*lmax, hence eps*lmax/theta_i relative
+        // through X^T X in f64 is ~ eps*lmax, hence eps*lmax/theta_i relative.  Components below
+        // 2.2e-10*lmax are dropped by the solver, so the tolerance never exceeds 5e-3 and the
+        // clause is evaluated for every spectrum (skipped only when a sigma sits on the floor).
+        let zmw = col_mean(&z, r);
+        let czw = gram(&centred(&z, &zmw), r, (n - 1) as f64);
         let lmin = (0..r).map(|i| lam[i]).fold(f64::INFINITY, f64::min);
-        let floored = f.sigma.iter().any(|s| *s <= 1e-8);
-        let tol = 1e-6 + 1e-12 * (lmax / lmin.max(f64::MIN_POSITIVE));
+        let tol = (1e-6 + 1e-12 * (lmax / lmin.max(f64::MIN_POSITIVE))).min(1e-2);
         let mut worst = 0.0f64;
         for i in 0..r {
             for j in 0..r {
-                worst = worst.max((cz[i][j] - if i == j { 1.0 } else { 0.0 }).abs());
+                worst = worst.max((czw[i][j] - if i == j { 1.0 } else { 0.0 }).abs());
             }
         }
-        if floored || !(tol < 1e-3) {
+        if any_floored {
             ctx.mark_trivial();
         } else {
+            seen.whitened_checked = true;
             ctx.require(worst <= tol, "whitened_identity", &class, || {
-                let rel: Vec<f64> = (0..r)
-                    .map(|i| {
-                        let cv: Vec<f64> = c.iter().map(|row| dot(row, &dirs[i])).collect();
-                        cv.iter().zip(&dirs[i]).map(|(a, b)| (a - theta[i] * b).powi(2)).sum::<f64>().sqrt() / theta[i]
-                    })
-                    .collect();
+                let rel: Vec<f64> = (0..r).map(|i| resid[i] / theta[i]).collect();
                 format!("max |cov(projected) - I| = {:e} (tolerance {:e}); |C v_i - theta_i v_i|/theta_i = {:?}; sigma = {:?}; max |V Vt - I| = {:e}", worst, tol, rel, f.sigma, worst_orth)
             });
         }
@@ -418,6 +573,10 @@ fn oracle(ctx: &mut Ctx, kind: &str, x: &Mat, p: usize, k: usize, w: bool, f: &F
         }
         ctx.require(bad <= 1e-12, "ratio_proportional", &class, || format!("ratios not proportional to the explained variances: ev={:?} ratio={:?}", f.ev, f.evr));
     }
+    // (8) the other calling forms of the projection, on the training records in their layout
+    calling_forms(ctx, f, x, p, lay, &z, scale);
+    seen.spectral_ok = ctx.fails.len() == fails0;
+    seen
 }
 
 /// LOBPCG's design envelope (scipy falls back to a dense solver below `5k`; linfa-linalg has that
@@ -426,18 +585,44 @@ fn regime(k: usize, p: usize) -> &'static str {
     if k == p { "k=p" } else if p < 5 * k { "k<p<5k" } else { "5k<=p" }
 }
 
-fn op_fit(em: &mut Em, kind: &'static str, x: Mat, p: usize, k: usize, w: bool, q: Mat) {
+/// one fit request
+struct Req {
+    kind: &'static str,
+    x: Mat,
+    p: usize,
+    k: usize,
+    w: bool,
+    lay: &'static str,
+    form: &'static str,
+    q: Mat,
+}
+
+fn op_fit(em: &mut Em, rq: Req) {
+    let Req { kind, x, p, k, w, lay, form, q } = rq;
     let n = x.len();
-    let xa = to_arr(&x, p);
-    // what the external solver returns on the centred matrix (None when fit rejects before it)
+    // what the external solver returns on the centred matrix (None when fit rejects before it).
+    // The SPECIFIED rule of `leading_svd` decides which of the two solver calls is asked: dense full
+    // block on min(n,p) pairs when min(n,p) < 5k, LOBPCG on k pairs otherwise; the model applies the
+    // same rule on its own and rejects a request that carries the other call's output.
     let guard_rejects = n == 0 || p < k || k == 0;
+    let dim = n.min(p);
+    let raw = if dim < 5 * k { "dense" } else { "iter" };
     let svd = if guard_rejects {
         None
     } else {
-        let mean = xa.mean_axis(Axis(0)).unwrap();
-        let xc = &xa - &mean;
+        // same expressions as `fit` on the same memory layout (the solver's kernels see the layout)
+        let laid = Laid::new(&x, p, lay);
+        let xv = laid.view();
+        let mean = xv.mean_axis(Axis(0)).unwrap();
+        let xc = &xv - &mean;
         // the solver may panic (it unwraps a partial_cmp); `fit` then panics the same way
-        match std::panic::catch_unwind(std::panic::AssertUnwindSafe(|| linfa_reduction::verif_hooks_c18::truncated_svd_largest(xc, k))) {
+        match std::panic::catch_unwind(std::panic::AssertUnwindSafe(|| {
+            if raw == "dense" {
+                linfa_reduction::verif_hooks_c18::dense_svd_full(xc, dim)
+            } else {
+                linfa_reduction::verif_hooks_c18::lobpcg_svd(xc, k)
+            }
+        })) {
             Ok(r) => Some(r),
             Err(_) => Some(Err("panic".to_string())),
         }
@@ -446,9 +631,15 @@ fn op_fit(em: &mut Em, kind: &'static str, x: Mat, p: usize, k: usize, w: bool, 
         None => "svd=none".to_string(),
         Some(Err(e)) if e == "panic" => "svd=panic".to_string(),
         Some(Err(_)) => "svd=err".to_string(),
-        Some(Ok((s, vt))) => format!("svd=ok sv={} vt={}", list(s.iter(), |v| hex64c(*v)), exact2(&from_arr(vt))),
+        Some(Ok((s, vt))) => format!("svd=ok raw={} sv={} vt={}", raw, list(s.iter(), |v| hex64c(*v)), exact2(&from_arr(vt))),
     };
-    let op = format!("fit n={} p={} k={} w={} x={} {} q={}", n, p, k, w as u8, exact2(&x), svd_s, exact2(&q));
+    // integer targets and weights of the dataset over the query rows (transform / predict forms)
+    let tq: Vec<i64> = (0..q.len()).map(|i| ((3 * i + k) % 7) as i64 - 2).collect();
+    let wq: Vec<i64> = (0..q.len()).map(|i| (1 + (i + p) % 4) as i64).collect();
+    let op = format!(
+        "fit n={} p={} k={} w={} lay={} form={} x={} {} q={} t={} wt={}",
+        n, p, k, w as u8, lay, form, exact2(&x), svd_s, exact2(&q), list(tq.iter(), |v| v.to_string()), list(wq.iter(), |v| v.to_string())
+    );
     em.count(&format!("kind:{}", kind));
     em.count(&format!("whiten:{}", w as u8));
     em.count(if guard_rejects { "stream:guard_error" } else { "stream:valid" });
@@ -456,17 +647,19 @@ fn op_fit(em: &mut Em, kind: &'static str, x: Mat, p: usize, k: usize, w: bool, 
         em.count(if k == p { "k:full" } else if k == 1 { "k:one" } else { "k:mid" });
         em.count(&format!("regime:{}", regime(k, p)));
     }
-    let covered = n > p && p >= 1 && k >= 1 && k <= p;
-    let body = move |ctx: &mut Ctx| -> String {
-        match fit_pca(&x, p, k, w) {
+    // constant records (zero covariance): every direction is a principal axis with variance 0 and the
+    // statement's clauses say nothing testable; correspondence only
+    let covered = n > p && p >= 1 && k >= 1 && k <= p && kind != "constant";
+    let seen = Cell::new(Seen::default());
+    let class_s = format!("data={};{};whiten={}", kind, regime(k.max(1), p.max(1)), w as u8);
+    let body = |ctx: &mut Ctx| -> String {
+        match fit_pca(&x, p, k, w, lay, form) {
             Err(e) => {
                 if covered {
-                    ctx.fail("fit_succeeds", &format!("data={};{};whiten={}", kind, regime(k, p), w as u8), format!("fit returned {} on n={} p={} k={}", show_err(&e), n, p, k));
-                } else if n > 0 && p >= k && k > 0 {
-                    // n <= p: outside the quantifier, no promise either way
-                } else {
-                    // the statement: empty dataset or embedding size outside 1..p is an error
+                    ctx.fail("fit_succeeds", &class_s, format!("fit returned {} on n={} p={} k={}", show_err(&e), n, p, k));
                 }
+                // n <= p with a valid k: outside the quantifier, no promise either way;
+                // otherwise the statement: empty dataset or embedding size outside 1..p is an error
                 show_err(&e)
             }
             Ok(f) => {
@@ -474,27 +667,56 @@ fn op_fit(em: &mut Em, kind: &'static str, x: Mat, p: usize, k: usize, w: bool, 
                     ctx.fail("error_on_bad_input", &format!("n={};k_vs_p={}", if n == 0 { "0" } else { "pos" }, if k == 0 { "zero" } else if k > p { "above" } else { "in" }), format!("fit succeeded on n={} p={} k={}", n, p, k));
                 }
                 if covered {
-                    oracle(ctx, kind, &x, p, k, w, &f);
+                    seen.set(oracle(ctx, kind, &x, p, k, w, lay, &f));
                 }
                 let z = predict(&f.model, &q, p);
                 let inv = inverse(&f.model, &z);
+                // Transformer::transform / Predict::predict on a dataset over the query rows
+                let qa = to_arr(&q, p);
+                let ta = Array1::from(tq.clone());
+                let wa = Array1::from(wq.iter().map(|v| *v as f32).collect::<Vec<f32>>());
+                let td = f.model.transform(DatasetBase::new(qa.clone(), ta.clone()).with_weights(wa.clone()));
+                let pd = f.model.predict(DatasetBase::new(qa, ta).with_weights(wa));
+                let ws = |w: Option<&[f32]>| list(w.unwrap_or(&[]).iter(), |v| (*v as i64).to_string());
                 format!(
-                    "ok mean={} sigma={} comp={} ev={} evr={} z={} inv={}",
+                    "ok mean={} sigma={} comp={} ev={} evr={} z={} inv={} td={}/{}/{} pd={}/{}/{}",
                     list(f.mean.iter(), |v| hex64c(*v)),
                     list(f.sigma.iter(), |v| hex64c(*v)),
                     exact2(&f.comp),
                     list(f.ev.iter(), |v| hex64c(*v)),
                     list(f.evr.iter(), |v| format!("~{}", hex64c(*v))),
                     approx2(&z),
-                    approx2(&inv)
+                    approx2(&inv),
+                    approx2(&from_arr(td.records())),
+                    list(td.targets().iter(), |v| v.to_string()),
+                    ws(td.weights()),
+                    exact2(&from_arr(pd.records())),
+                    approx2(&from_arr(pd.targets())),
+                    ws(pd.weights())
                 )
             }
         }
     };
     if covered {
-        em.case_valid(op, &format!("data={};{};whiten={}", kind, regime(k, p), w as u8), body);
+        em.case_valid(op, &class_s, body);
     } else {
         em.case(op, body);
+    }
+    // coverage counters (success-like outcomes; conf "floors")
+    let s = seen.get();
+    if s.fitted {
+        em.count(&format!("fitted:lay={}", lay));
+        em.count(&format!("fitted:form={}", form));
+        em.count(&format!("fitted:kind={}", kind));
+        if s.spectral_ok {
+            em.count(&format!("clean:{};{}", kind, regime(k, p)));
+        }
+        if s.whitened_checked {
+            em.count("whitened_identity:evaluated");
+        }
+        if s.floored {
+            em.count("sigma:floored");
+        }
     }
 }
 
@@ -516,13 +738,21 @@ pub fn run(em: &mut Em, rng: &mut Rng) {
         std::panic::set_hook(Box::new(|i| eprintln!("{}", i)));
     }
     let (pmax, nextra, reps) = if thorough { (10usize, 120usize, 12usize) } else { (7usize, 30usize, 4usize) };
+    // layout and calling form rotate with a running counter so that every (kind, p, k, w) meets all
+    // of them over the repetitions
+    let mut rot = 0usize;
+    let next = |rot: &mut usize| -> (&'static str, &'static str) {
+        let r = *rot;
+        *rot += 1;
+        (LAYOUTS[r % 4], FORMS[(r / 4 + r) % 4])
+    };
 
     // fixed witnesses first: the 6x3 matrix of DESIGN section 8 #13, all k, both flags
     let w63: Mat = vec![vec![2.0, 0.0, 1.0], vec![-1.0, 3.0, 0.0], vec![0.0, -2.0, 4.0], vec![5.0, 1.0, -3.0], vec![-4.0, -1.0, -1.0], vec![1.0, 2.0, 2.0]];
     for k in 1..=3 {
         for w in [false, true] {
             let q = vec![w63[0].clone(), vec![1.0, 1.0, 1.0]];
-            op_fit(em, "lattice", w63.clone(), 3, k, w, q);
+            op_fit(em, Req { kind: "lattice", x: w63.clone(), p: 3, k, w, lay: "C", form: "plain", q });
         }
     }
 
@@ -543,7 +773,8 @@ pub fn run(em: &mut Em, rng: &mut Rng) {
                 let q = queries(rng, &x, p);
                 for k in 1..=p {
                     for w in [false, true] {
-                        op_fit(em, kind, x.clone(), p, k, w, q.clone());
+                        let (lay, form) = next(&mut rot);
+                        op_fit(em, Req { kind, x: x.clone(), p, k, w, lay, form, q: q.clone() });
                     }
                 }
             }
@@ -552,7 +783,7 @@ pub fn run(em: &mut Em, rng: &mut Rng) {
 
     // wide stream: p >= 5k, the regime LOBPCG is meant for
     let wide: &[usize] = if thorough { &[5, 6, 8, 10, 12, 16, 20, 30, 40] } else { &[5, 6, 8, 10, 15, 20] };
-    for rep in 0..(if thorough { 6 } else { 2 }) {
+    for rep in 0..(if thorough { 8 } else { 4 }) {
         for kind in KINDS {
             for &p in wide {
                 let n = p + 1 + rng.below(if rep % 2 == 0 { 3 * p } else { nextra + 1 });
@@ -560,15 +791,66 @@ pub fn run(em: &mut Em, rng: &mut Rng) {
                 let q = queries(rng, &x, p);
                 for k in 1..=(p / 5) {
                     for w in [false, true] {
-                        op_fit(em, kind, x.clone(), p, k, w, q.clone());
+                        let (lay, form) = next(&mut rot);
+                        op_fit(em, Req { kind, x: x.clone(), p, k, w, lay, form, q: q.clone() });
                     }
                 }
             }
         }
     }
 
-    // error stream: empty dataset, k = 0, k > p (also together), n <= p (outside the quantifier)
-    let nerr = if thorough { 400 } else { 80 };
+    // switch stream: embedding sizes on both sides of the dense / LOBPCG switch (dim = 5k - 1, 5k,
+    // 5k + 1 and 4k, 6k) — the model applies the switch itself, so a moved switch is a disagreement
+    for rep in 0..(if thorough { 6 } else { 2 }) {
+        for kind in KINDS {
+            for k in 1..=(if thorough { 5usize } else { 3 }) {
+                for p in [4 * k, 5 * k - 1, 5 * k, 5 * k + 1, 6 * k] {
+                    if p < k || p == 0 {
+                        continue;
+                    }
+                    let n = p + 1 + rng.below(nextra + 1);
+                    let x = gen_matrix(rng, kind, n, p);
+                    let q = queries(rng, &x, p);
+                    let (lay, form) = next(&mut rot);
+                    em.count("stream:switch");
+                    op_fit(em, Req { kind, x, p, k, w: (rep + k + p) % 2 == 0, lay, form, q });
+                }
+            }
+        }
+    }
+
+    // large stream: more features and many more samples than the grid above
+    let large: &[(usize, usize)] = if thorough { &[(12, 300), (16, 500), (24, 800), (32, 1000), (40, 400)] } else { &[(12, 150), (16, 300), (24, 200)] };
+    for rep in 0..(if thorough { 4 } else { 1 }) {
+        for kind in KINDS {
+            for &(p, nmax) in large {
+                let n = p + 1 + rng.below(nmax);
+                let x = gen_matrix(rng, kind, n, p);
+                let q = queries(rng, &x, p);
+                for k in [1, 2, p / 5, p / 5 + 1, p / 2, p - 1, p] {
+                    let (lay, form) = next(&mut rot);
+                    em.count("stream:large");
+                    op_fit(em, Req { kind, x: x.clone(), p, k, w: (rep + k) % 2 == 1, lay, form, q: q.clone() });
+                }
+            }
+        }
+    }
+
+    // constant records: zero covariance (correspondence only, see op_fit)
+    for i in 0..(if thorough { 24 } else { 8 }) {
+        let p = 1 + i % 4;
+        let n = p + 1 + rng.below(6);
+        let row: Vec<f64> = (0..p).map(|_| rng.range(-5, 5) as f64).collect();
+        let x: Mat = (0..n).map(|_| row.clone()).collect();
+        let q = queries(rng, &x, p);
+        let (lay, form) = next(&mut rot);
+        op_fit(em, Req { kind: "constant", x, p, k: 1 + i % p, w: i % 2 == 1, lay, form, q });
+    }
+
+    // error stream: empty dataset, k = 0, k > p (also together), 2 <= n <= p (outside the quantifier;
+    // n = 1 is not sent: the statement says nothing about a single sample and the variance divisor
+    // n - 1 is zero there)
+    let nerr = if thorough { 400 } else { 100 };
     for _ in 0..nerr {
         let p = 1 + rng.below(5);
         let which = rng.below(5);
@@ -577,11 +859,15 @@ pub fn run(em: &mut Em, rng: &mut Rng) {
             1 => (1 + rng.below(8), 0),
             2 => (1 + rng.below(8), p + 1 + rng.below(3)),
             3 => (0, 0),
-            _ => (1 + rng.below(p), 1 + rng.below(p)), // n <= p, valid k: not covered, correspondence only
+            _ => (2 + rng.below(p.max(2) - 1), 1 + rng.below(p)), // 2 <= n <= p, valid k: not covered, correspondence only
         };
+        if which == 4 && (n > p || n < 2) {
+            continue;
+        }
         let x: Mat = (0..n).map(|_| (0..p).map(|_| rng.range(-5, 5) as f64).collect()).collect();
         let q: Mat = vec![(0..p).map(|_| rng.range(-3, 3) as f64).collect()];
         em.count(match which { 0 | 3 => "err:n=0", 1 => "err:k=0", 2 => "err:k>p", _ => "uncovered:n<=p" });
-        op_fit(em, "lattice", x, p, k, rng.coin(), q);
+        let (lay, form) = next(&mut rot);
+        op_fit(em, Req { kind: "lattice", x, p, k, w: rng.coin(), lay, form, q });
     }
 }
